@@ -15,6 +15,8 @@ import Proofs.C01ReadFull
 import Proofs.C01Limit
 import Proofs.C01Alias
 import Proofs.C01Clone
+import FqModel.C01Adapter
+import Proofs.C01Adapter
 /-!
   C01 — bit-exact reads through any composition of bit and file readers: property theorems about the
   model (FqModel/Bitio.lean: Read64/Write64/copyBufBits/Buffer; FqModel/C01Readers.lean: the readers;
@@ -522,5 +524,125 @@ example :
       [.readFull 4, .seek (-28) .end_, .readFull 4, .readFull 4]
     = [ok (4, [48, 49, 50, 51], none), ok (4, [], none), ok (4, [52, 53, 54, 55], none), ok (4, [56, 57, 58, 59], none)] := by
   decide
+
+/-! ### bit → byte → bit adapter nestings (IOReadSeeker over a bit reader, IOBitReadSeeker over that, towers) -/
+
+/-- `ioReadSeeker_refines` (adapter core).  `bitio.NewIOReadSeeker(r)` over ANY bit source that is byte regular
+    (`RegSrc`: denotes whole bytes; a ReadBits of 8·m bits at a byte aligned position returns a multiple of 8 bits;
+    SeekBits(8·o, w) lands on start/current/end + 8·o or is rejected leaving the cursor alone) is an io.ReadSeeker
+    over the zero padded packing of the bits: in every reachable state (`IOSeekAt`: bit buffer empty, source at bit
+    8·j; NOTHING is assumed about `sPos`) Read(p) answers 1..len(p) bytes of `bitsToBytesPadR D` at byte j (EOF at /
+    beyond the end, never together with data) and Seek(o, start|current|end) reports and reaches exactly the
+    target byte, rejected exactly when the source rejects the bit target 8·T (policy `bytePolOf p`).
+    The three parts of the side condition are each NECESSARY: see the three witnesses below. -/
+theorem ioReadSeeker_refines (d : Nat) (p : SeekPol) (D : Bits) (I : Rd → Nat → Prop) (hsrc : RegSrc p (step d) D I) :
+    ByteOKP (bytePolOf p) (step (d + 1)) (bitsToBytesPadR D) (IOSeekAt D I) := by
+  rw [← packR_eq_bitsToBytesPadR]; exact ioReadSeeker_byteOKP d p D I hsrc
+
+/-- … hence EVERY history of io.ReadFull / Seek(start|current|end) on it is the byte cursor over `bitsToBytesPadR D` -/
+theorem ioReadSeeker_history (d : Nat) (p : SeekPol) (D : Bits) (I : Rd → Nat → Prop) (hsrc : RegSrc p (step d) D I)
+    (s : Rd) (j : Nat) (hs : IOSeekAt D I s j) (ops : List BOp) :
+    runBytes (d + 1) s ops = runByteSpecP (bytePolOf p) (bitsToBytesPadR D) j ops :=
+  runBytes_specP (d + 1) _ _ _ (ioReadSeeker_refines d p D I hsrc) ops s j hs
+
+/-- `adapter_history_refines`: EVERY history of ReadBitsAt / ReadBits / SeekBits(start|current|end) / clone on
+    `NewIOBitReadSeeker(NewIOReadSeeker(r))`, r byte regular, makes the observations of the specification machine
+    of `open_stack_refines` over the byte string `bitsToBytesPadR (den r)` (with the seek policy of r): the two
+    adapters and r's own reads, short reads and buffering are invisible -/
+theorem adapter_history_refines (d : Nat) (p : SeekPol) (D : Bits) (I : Rd → Nat → Prop) (hsrc : RegSrc p (step d) D I)
+    (b : Rd) (j : Nat) (hb : IOSeekAt D I b j) (bp : Int) (buf : List UInt8) (ops : List HOp) :
+    runH (d + 2) (.ioBits b bp buf) ops = runBitsSpecFromP (bytePolOf p) (bitsToBytesPadR D) (bp, buf) ops :=
+  ioBits_run_specP (d + 1) _ _ _ (ioReadSeeker_refines d p D I hsrc) ops b j bp buf hb
+
+/-- with the policy of bytes.Reader the policy machine IS the machine of `open_stack_refines` -/
+theorem spec_machine_std (data : List UInt8) (ops : List HOp) (st : Int × List UInt8) :
+    runBitsSpecFromP stdPol data st ops = runBitsSpecFrom data st ops :=
+  runBitsSpecFromP_std data ops st
+
+/-- the instance fq builds: a SectionReader of a whole number of bytes (any bit offset `base`) of an
+    IOBitReadSeeker over any io.ReadSeeker that accepts non-negative seeks — NewBitReader(buf, -1), a
+    `bitiox.Range` / `d.BitBufRange` of 8·k bits of a file — is byte regular: reads are exact there -/
+theorem section_byte_regular (d : Nat) (q : SeekPol) (hq : AcceptsNonneg q) (data : List UInt8) (I : Rd → Nat → Prop)
+    (hok : ByteOKP q (step d) data I) (base L : Nat) (hL8 : L % 8 = 0) (hfit : base + L ≤ 8 * data.length) :
+    RegSrc sectPol (step (d + 2)) (slice (bytesToBits data) base L) (SectOver (IOBitsOver I) base L) :=
+  regSrc_sect_ioBits d q hq data I hok base L hL8 hfit
+
+/-- `adapter_tower_refines` (arbitrary depth, by induction over the levels).  Over any well-formed byte stack b0
+    (bytes.Reader, file, the ahead/progress/ctx stack of interp._open) standing at 0, the tower
+    IOReadSeeker(Section(IOBitReadSeeker(IOReadSeeker(Section(IOBitReadSeeker(… b0 …)))))) of ANY number of levels
+    (each section a whole number of bytes inside the bits below, at any bit offset) is an io.ReadSeeker over
+    `towerData` — level by level the zero padded packing of the section of the bits below —: every byte history
+    on it is the byte cursor, and every bit history on an IOBitReadSeeker on top of it is the specification machine. -/
+theorem adapter_tower_refines (d0 : Nat) (data : List UInt8) (b0 : Rd) (h0 : ByteAt d0 data b0 0) (ls : List Level)
+    (hfit : towerFits data ls) :
+    (∀ bops : List BOp, runBytes (d0 + 3 * ls.length) (towerInit b0 ls) bops =
+        runByteSpecP (towerPol ls) (towerData data ls) 0 bops) ∧
+    (∀ ops : List HOp, runH (d0 + 3 * ls.length + 1) (newIOBits (towerInit b0 ls)) ops =
+        runBitsSpecFromP (towerPol ls) (towerData data ls) (0, []) ops) := by
+  have hok := tower_byteOKP d0 (ByteAt d0 data) data (byteOK_wf d0 data) ls hfit
+  have hat := towerInit_at (ByteAt d0 data) data b0 h0 ls
+  exact ⟨fun bops => runBytes_specP _ _ _ _ hok bops _ 0 hat, fun ops => ioBits_run_specP _ _ _ _ hok ops _ 0 0 [] hat⟩
+
+/-- what a tower delivers: one level over the whole buffer is the buffer again; in general the top level is the
+    zero padded packing of its section of the bits of the tower below -/
+theorem tower_data (data : List UInt8) (l : Level) (ls : List Level) :
+    towerData data [⟨0, 8 * data.length⟩] = data ∧
+    towerData data (l :: ls) = bitsToBytesPadR (slice (bytesToBits (towerData data ls)) l.base l.len) :=
+  ⟨towerData_whole data, by simp only [towerData, packR_eq_bitsToBytesPadR]⟩
+
+/-- non-vacuity: a two-level tower over 5 bytes (24 bits at bit offset 4, of which the first 16 bits), a bit history on
+    top and a byte history on the tower itself, incl. a rejected and a beyond-the-end seek -/
+example :
+    towerFits [0x12, 0x34, 0x56, 0x78, 0x9a] [⟨0, 16⟩, ⟨4, 24⟩] ∧ ByteAt 1 [0x12, 0x34, 0x56, 0x78, 0x9a] (.raw [0x12, 0x34, 0x56, 0x78, 0x9a] 0 false) 0 ∧
+    towerData [0x12, 0x34, 0x56, 0x78, 0x9a] [⟨0, 16⟩, ⟨4, 24⟩] = [0x23, 0x45] ∧
+    (runH 8 (newIOBits (towerInit (.raw [0x12, 0x34, 0x56, 0x78, 0x9a] 0 false) [⟨0, 16⟩, ⟨4, 24⟩]))
+        [.read 3, .seek 2 .current, .read 8, .seek (-5) .end_, .readAt 20 3, .seek (-8) .start]).map
+      (fun x => match x.2 with | .ok res => (res.n, res.bits.length, res.err) | _ => (-1, 0, none))
+      = [(3, 3, none), (5, 0, none), (8, 8, none), (11, 0, none), (13, 13, some .eof), (0, 0, some .offset)] := by
+  refine ⟨⟨⟨trivial, by decide, by decide⟩, by decide, by decide⟩, ⟨by simp [ByteWF], rfl, rfl⟩, by decide, by decide⟩
+
+/-- the side condition of `ioReadSeeker_refines` is necessary, 1 (`len8`; the recorded instance of the known finding
+    `ioreadseeker-unaligned-seek`): over a 13 bit source Seek(-1, end) reports byte 0 instead of 1 and the next Read
+    delivers bits 5..12 (0x46) instead of byte 1 of the zero padded view (0x30) -/
+theorem ioReadSeeker_unaligned_len_witness :
+    (runBytes 5 (.ioBytes (newBitReader [0x12, 0x34, 0x56] (some 13)) true none {} 0) [.seek (-1) .end_, .readFull 1]
+      = [ok (0, [], none), ok (1, [0x46], none)]) ∧
+    (runByteSpecP (bytePolOf sectPol) (bitsToBytesPadR (den (newBitReader [0x12, 0x34, 0x56] (some 13)))) 0
+        [.seek (-1) .end_, .readFull 1] = [ok (1, [], none), ok (1, [0x30], none)]) := by
+  rw [← packR_eq_bitsToBytesPadR]; decide
+
+/-- … 2 (`read`: short reads that are not multiples of 8 bits, the total length being 2 whole bytes): over
+    NewMultiReader(5 bits, 11 bits) Read(1); Seek(0, current) reports byte 1 correctly but drops the 5 buffered bits:
+    the next Read delivers bits 13..15 zero padded (0xe0) instead of byte 1 (0x6f) -/
+theorem ioReadSeeker_short_read_witness :
+    ∃ m, newMulti [newBitReader [0xab] (some 5), newBitReader [0xcd, 0xe0] (some 11)] = ok m ∧ (den m).length = 16 ∧
+      runBytes 6 (.ioBytes m true none {} 0) [.readFull 1, .seek 0 .current, .readFull 1]
+        = [ok (1, [0xae], none), ok (1, [], none), ok (1, [0xe0], none)] ∧
+      runByteSpecP (bytePolOf (multiPol 16)) (bitsToBytesPadR (den m)) 0 [.readFull 1, .seek 0 .current, .readFull 1]
+        = [ok (1, [0xae], none), ok (1, [], none), ok (1, [0x6f], none)] := by
+  refine ⟨_, rfl, by decide, by decide, ?_⟩
+  rw [← packR_eq_bitsToBytesPadR]; decide
+
+/-- … 3 (the comparison of a bit position with a byte position, ioreadseeker.go:30, also bites a seek from START):
+    over NewMultiReader(5 bits, 67 bits) (9 whole bytes) eight Read(1) leave 5 bits buffered and sPos = 8;
+    Seek(1, start) yields bit position 8 = sPos, so the buffer is NOT dropped and the next Read delivers the 5 stale
+    bits followed by bits 8..10 (0x40) instead of byte 1 (0x08) -/
+theorem ioReadSeeker_stale_buffer_witness :
+    ∃ m, newMulti [newBitReader [0xab] (some 5), newBitReader [1, 2, 3, 4, 5, 6, 7, 8, 9] (some 67)] = ok m ∧
+      (runBytes 6 (.ioBytes m true none {} 0) [.readFull 1, .readFull 1, .readFull 1, .readFull 1, .readFull 1,
+          .readFull 1, .readFull 1, .readFull 1, .seek 1 .start, .readFull 1]).drop 8 = [ok (1, [], none), ok (1, [0x40], none)] ∧
+      (runByteSpecP (bytePolOf (multiPol 72)) (bitsToBytesPadR (den m)) 0 [.readFull 1, .readFull 1, .readFull 1,
+          .readFull 1, .readFull 1, .readFull 1, .readFull 1, .readFull 1, .seek 1 .start, .readFull 1]).drop 8
+        = [ok (1, [], none), ok (1, [0x08], none)] := by
+  refine ⟨_, rfl, by decide, ?_⟩
+  rw [← packR_eq_bitsToBytesPadR]; decide
+
+/-- IOBitWriter → bytes → IOBitReadSeeker round trip: every history on NewIOBitReadSeeker(bytes.NewReader(w)), w the
+    bytes an IOBitWriter wrote for the bits X (`ioBitWriter_flush`), is the specification machine over
+    `bitsToBytesPadR X`, whose bits are X followed by the zero padding (so reads inside X return X's bits) -/
+theorem writer_ioBits_roundtrip (X : Bits) (ops : List HOp) :
+    runH depthFuel (newIOBits (.raw (bitsToBytesPadR X) 0 false)) ops = runBitsSpec (bitsToBytesPadR X) ops ∧
+    bytesToBits (bitsToBytesPadR X) = X ++ List.replicate (padTo8 X.length) false :=
+  ⟨plain_refines' _ ops, by rw [← packR_eq_bitsToBytesPadR]; exact bytesToBits_packR X⟩
 
 end Props.C01
